@@ -298,6 +298,7 @@ def coq_properties(prop, dirs=None, extra_targets=(), gen_targets=()):
         errs = re.findall(r'(File "[^"]+", line \d+, characters [\d-]+:\nError:(?:\n?[^\n]+){1,8})', lg)
         res["failures"].append("coq build failed: " + (" || ".join(e.replace("\n", " ") for e in errs[:3]) or lg[-1500:]))
         res["discharged"] = 0
+        log("[coq] FAILED:\n" + "\n".join(l[:300] for l in lg.splitlines()[-25:]))
         return res
     # Print Assumptions accounting: each "Print Assumptions x." prints either "Closed under the global
     # context" or "Axioms:" followed by lines "name : type".
